@@ -1,6 +1,7 @@
 import PqModel.Spec.Inflate
 import PqModel.Spec.InflateTests
 import PqModel.Spec.InflateFixed
+import PqModel.Spec.InflateMatch
 
 /-! # C20, gzip part — a DEFLATE / gzip reader written from RFC 1951 / RFC 1952 (SPEC side)
 
@@ -19,10 +20,19 @@ Of the Huffman paths, the LITERAL path on the fixed table is proved too: `inflat
 reference encoder that writes every byte with the code RFC 1951 §3.2.2/§3.2.6 assigns to it
 (`inflate_fixedLiterals_id`; bit order of codes, canonical walk, symbol loop, end-of-block).
 
+Round 4: the LENGTH/DISTANCE path on the fixed tables is proved as well (`Spec/InflateMatch.lean`):
+`inflate` reads a fixed-Huffman block of arbitrary tokens (every length symbol 257..285, every distance
+symbol 0..29, every value of the extra bits, references overlapping their own output or not) back as
+the tokens mean them (`inflate_fixedBlock_tokens`), a reference means "every new byte equals the byte
+`dist` positions before it" (`reference_copies_from_distance`), and `inflate` inverts a greedy LZ77
+matcher + fixed-Huffman encoder for every window and input (`inflate_deflateFixed_id`).
+
 -- OPEN (tested, not proved): `∀ stream produced by a conformant Huffman/LZ77 encoder,
--- inflate stream = the encoder's input` — length/distance symbols (matches, incl. overlapping
--- ones) and the dynamic-table header (code-length code, repeat codes) have no Lean encoder to be
--- stated against. Evidence instead: `walkAgrees_fixedLit` / `walkAgrees_fixedDist` (the canonical-code walk
+-- inflate stream = the encoder's input` — the dynamic-table header (code-length code, repeat codes,
+-- canonical codes of arbitrary length sets) has no Lean encoder to be stated against; the fixed-table
+-- paths are proved for the two reference encoders, not for every conformant encoder (a conformant
+-- encoder may choose any tokens: `inflate_fixedBlock_tokens` covers every choice on ONE final fixed
+-- block). Evidence instead: `walkAgrees_fixedLit` / `walkAgrees_fixedDist` (the canonical-code walk
 -- decodes every code of RFC 1951 §3.2.2's explicit assignment on the two fixed tables, by kernel
 -- evaluation), the `decide` vectors of `InflateTests.lean` (streams of Go's stdlib: fixed block
 -- with overlapping match, dynamic block, gzip header options; rejected: CRC, ISIZE, reserved
@@ -83,6 +93,47 @@ theorem inflate_fixedLiterals_id (bs : List UInt8) : inflate (fixedLiterals bs) 
   inflate_fixedLiterals bs
 
 example : fixedLiterals [104, 105, 200] = [203, 200, 60, 1, 0] := by decide +kernel
+
+/-- Fixed-Huffman block of TOKENS (`fixedBlock`: BFINAL=1, BTYPE=01; a literal as its code; a
+reference as length code 257+ls, the extra length bits LSB-first, the 5-bit distance code ds, the
+extra distance bits LSB-first; end-of-block; zero padding). For EVERY token list whose references are
+writable (ls < 29, ds < 30, extra values inside their bit widths) and reach back at most to the start
+of the output produced so far (`toksOk`), `inflate` returns what the tokens mean (`applyToks`:
+literal = append, reference = `copyBack dist len`). Lengths 3..258, distances 1..32768, overlapping
+copies (dist < len) included. Evaluated: `fixedCheck2_ok` (286 + 30 codes, once, in the kernel). -/
+theorem inflate_fixedBlock_tokens (toks : List Tok) (hok : toksOk toks #[] = true) :
+    inflate (fixedBlock toks) = .ok (applyToks toks #[]).toList :=
+  inflate_fixedBlock toks hok
+
+/-- hypotheses satisfiable, with an overlapping reference (length 9 at distance 1) and a far one -/
+example : toksOk [.lit 97, .ref 6 0 0 0, .lit 98, .ref 0 0 4 1] #[] = true ∧
+    (applyToks [.lit 97, .ref 6 0 0 0, .lit 98, .ref 0 0 4 1] #[]).toList =
+      List.replicate 10 97 ++ [98] ++ [97, 97, 97] := by decide +kernel
+
+/-- What a reference means (RFC 1951 §3.2.3), independent of how `copyBack` computes it: the result
+keeps the old output, is `n` bytes longer, and every new byte equals the byte `d` positions before it
+in the RESULT — so for `d < n` the copy reads bytes it has just written. -/
+theorem reference_copies_from_distance (d n : Nat) (out : Array UInt8) (hd : 0 < d) (hfit : d ≤ out.size) :
+    (PqModel.Spec.BlockCodecs.copyBack d n out).size = out.size + n ∧
+    (∀ i, i < out.size → (PqModel.Spec.BlockCodecs.copyBack d n out)[i]? = out[i]?) ∧
+    (∀ i, out.size ≤ i → i < out.size + n →
+      (PqModel.Spec.BlockCodecs.copyBack d n out)[i]? = (PqModel.Spec.BlockCodecs.copyBack d n out)[i - d]?) :=
+  ⟨copyBack_size d n out, copyBack_prefix d n out, fun i h1 h2 => copyBack_get d hd n out i hfit h1 h2⟩
+
+/-- the greedy matcher's tokens rebuild the input and are writable, for every window and input -/
+theorem lz77_tokens_rebuild_input (w : Nat) (bs : List UInt8) :
+    applyToks (lz77 w bs.length #[] bs) #[] = bs.toArray ∧ toksOk (lz77 w bs.length #[] bs) #[] = true := by
+  simpa using applyToks_lz77 w bs.length #[] bs
+
+/-- `inflate ∘ deflateFixed w = id`: greedy LZ77 (longest match ≥ 3 in a window of `w` bytes, the
+source running into the bytes being produced) + fixed-Huffman coding with length/distance pairs is
+read back, for EVERY window and EVERY byte string. -/
+theorem inflate_deflateFixed_id (w : Nat) (bs : List UInt8) : inflate (deflateFixed w bs) = .ok bs :=
+  inflate_deflateFixed w bs
+
+/-- the encoder does emit references: ten `a` = one literal + (length 9, distance 1) -/
+example : lz77 32 10 #[] (List.replicate 10 97) = [.lit 97, .ref 6 0 0 0] ∧
+    deflateFixed 32 (List.replicate 10 97) = [75, 132, 3, 0] := by decide +kernel
 
 /-- TESTED by kernel evaluation, finite: on the fixed literal/length table (288 symbols) and the
 fixed distance table the bit-by-bit walk `decodeSym` decodes every code of the explicit
